@@ -212,6 +212,30 @@ Definition apply_disconnect (h : hstate) (gr : option (list fam * N)) (llgr : op
       end
   end.
 
+(* the end of session_loop() and of run() for the live session s *)
+Definition down_of (h : hstate) (s : session) (r : reason) : hstate :=
+          (* session_loop (fix C10-2): eligibility, including admin-down, is decided first;
+             the families kept and marked stale are derived from the result *)
+          let gr' := match s_gr s with
+                     | Some (l, rt, nbit) => if gr_applies r nbit then Some (l, rt) else None
+                     | None => None
+                     end in
+          let llgr' := match gr', r with
+                       | Some _, _ => s_llgr s
+                       | None, RsTcp => s_llgr s
+                       | None, _ => None
+                       end in
+          let gr'' := if h_admin_down h then None else gr' in
+          let llgr'' := if h_admin_down h then None else llgr' in
+          let gr_fams := match gr'' with Some (l, _) => l | None => [] end in
+          let llgr_fams := match llgr'' with Some l => map fst l | None => [] end in
+          let drop_fams := filter (fun f => negb (mem f gr_fams) && negb (mem f llgr_fams)) (s_fams s) in
+          (* every kept family is marked stale (fix C10-5) *)
+          let rib1 := rib_restale (rib_drop (h_rib h) drop_fams) (gr_fams ++ llgr_fams) in
+          let h1 := {| h_gr := h_gr h; h_rtimer := h_rtimer h; h_ltimers := h_ltimers h; h_rib := rib1;
+                       h_sess := None; h_gen := h_gen h; h_admin_down := h_admin_down h |} in
+          apply_disconnect h1 gr'' llgr''.
+
 (* gr_restart_timer_expired; [cur] are the LLGR timers that stay armed next to the new ones *)
 Definition restart_handler (h : hstate) (cur : list fam) : hstate :=
   let '(g', outs) := gr_step (h_gr h) GTimerExpired in
@@ -238,6 +262,14 @@ Definition norm_llgr (fams : list fam) (ll : option (list (fam * N))) : option (
   | None => None
   end.
 
+(* PeerContext::force_down, timer part: fire_gr_timer, fire_llgr_timers.  The timers armed at the
+   call run their handlers; LLGR timers started by the restart-timer handler are new tasks and
+   stay pending *)
+Definition force_timers (h : hstate) : hstate :=
+  let armed := h_ltimers h in
+  let h1 := if h_rtimer h then restart_handler h [] else upd_h h (h_gr h) false [] (h_rib h) in
+  fold_left llgr_handler armed h1.
+
 Definition h_step (h : hstate) (e : hevent) : hstate :=
   match e with
   | HUp fams gr0 llgr0 =>
@@ -247,6 +279,8 @@ Definition h_step (h : hstate) (e : hevent) : hstate :=
       match h_sess h with
       | Some _ => h
       | None =>
+        if h_admin_down h then h      (* accept_connection: "admin down; ignore a new passive connection" *)
+        else
           let gen := h_gen h + 1 in
           let gr_families := match gr with Some (l, _, _) => l | None => [] end in
           (* process_effects(GrSessionEstablished): cancel_gr_timer, GrState, purges *)
@@ -279,44 +313,21 @@ Definition h_step (h : hstate) (e : hevent) : hstate :=
           end
       | None => h
       end
-  | HDown r =>
-      match h_sess h with
-      | Some s =>
-          (* session_loop (fix C10-2): eligibility, including admin-down, is decided first;
-             the families kept and marked stale are derived from the result *)
-          let gr' := match s_gr s with
-                     | Some (l, rt, nbit) => if gr_applies r nbit then Some (l, rt) else None
-                     | None => None
-                     end in
-          let llgr' := match gr', r with
-                       | Some _, _ => s_llgr s
-                       | None, RsTcp => s_llgr s
-                       | None, _ => None
-                       end in
-          let gr'' := if h_admin_down h then None else gr' in
-          let llgr'' := if h_admin_down h then None else llgr' in
-          let gr_fams := match gr'' with Some (l, _) => l | None => [] end in
-          let llgr_fams := match llgr'' with Some l => map fst l | None => [] end in
-          let drop_fams := filter (fun f => negb (mem f gr_fams) && negb (mem f llgr_fams)) (s_fams s) in
-          (* every kept family is marked stale (fix C10-5) *)
-          let rib1 := rib_restale (rib_drop (h_rib h) drop_fams) (gr_fams ++ llgr_fams) in
-          let h1 := {| h_gr := h_gr h; h_rtimer := h_rtimer h; h_ltimers := h_ltimers h; h_rib := rib1;
-                       h_sess := None; h_gen := h_gen h; h_admin_down := h_admin_down h |} in
-          apply_disconnect h1 gr'' llgr''
-      | None => h
-      end
-  | HFailedConnect => apply_disconnect h None None
+  | HDown r => match h_sess h with Some s => down_of h s r | None => h end
+  | HFailedConnect =>
+      (* accept_connection refuses the connection of an admin-down peer and a second connection
+         of the same role; otherwise the session ends before Established *)
+      if h_admin_down h then h
+      else match h_sess h with Some _ => h | None => apply_disconnect h None None end
   | HRestartTimer => if h_rtimer h then restart_handler h (h_ltimers h) else h
   | HLlgrTimer f =>
       if mem f (h_ltimers h) then
         llgr_handler (upd_h h (h_gr h) (h_rtimer h) (fremove f (h_ltimers h)) (h_rib h)) f
       else h
   | HForceDown =>
-      (* fire_gr_timer, fire_llgr_timers: the timers armed at the call run their handlers;
-         LLGR timers started by the restart-timer handler are new tasks and stay pending *)
-      let armed := h_ltimers h in
-      let h1 := if h_rtimer h then restart_handler h [] else upd_h h (h_gr h) false [] (h_rib h) in
-      fold_left llgr_handler armed h1
+      let h2 := force_timers h in
+      (* ... and the live session is told to close (CloseReason::Silent): it ends with AdminShutdown *)
+      match h_sess h2 with Some s => down_of h2 s RsOther | None => h2 end
   | HSetAdminDown b =>
       {| h_gr := h_gr h; h_rtimer := h_rtimer h; h_ltimers := h_ltimers h; h_rib := h_rib h;
          h_sess := h_sess h; h_gen := h_gen h; h_admin_down := b |}
